@@ -543,10 +543,30 @@ impl<'ast, 'r, 'a> Visit<'ast> for Collector<'r, 'a> {
     fn visit_stmt(&mut self, s: &'ast syn::Stmt) {
         match s {
             syn::Stmt::Item(_) => {} // nested items are extracted on their own
-            syn::Stmt::Local(l) if self.rw.on("R3") => {
-                if let Some(t) = self.try_r3(l) {
-                    self.edits.push(Edit { range: rng(s), text: t, prio: 0 });
-                    return;
+            syn::Stmt::Local(l) if self.rw.on("R3") || self.rw.on("R16") || self.rw.on("R3f") || self.rw.on("R17") => {
+                if self.rw.on("R16") {
+                    if let Some(t) = self.try_r16(l) {
+                        self.edits.push(Edit { range: rng(s), text: t, prio: 0 });
+                        return;
+                    }
+                }
+                if self.rw.on("R17") {
+                    if let Some(t) = self.try_r17(l) {
+                        self.edits.push(Edit { range: rng(s), text: t, prio: 0 });
+                        return;
+                    }
+                }
+                if self.rw.on("R3f") {
+                    if let Some(t) = self.try_r3f(l) {
+                        self.edits.push(Edit { range: rng(s), text: t, prio: 0 });
+                        return;
+                    }
+                }
+                if self.rw.on("R3") {
+                    if let Some(t) = self.try_r3(l) {
+                        self.edits.push(Edit { range: rng(s), text: t, prio: 0 });
+                        return;
+                    }
                 }
                 visit::visit_stmt(self, s);
             }
@@ -654,6 +674,37 @@ impl<'ast, 'r, 'a> Visit<'ast> for Collector<'r, 'a> {
                 self.rw.log.push(format!("R14 ..map(..).collect() into a boxed slice -> loop {key} + __collect_boxed"));
                 self.edits.push(Edit { range: rng(e), text: format!("__collect_boxed({{ let mut __v = Vec::new(); for {pat} in {iter}{recv} {hdr}{{ {bs}__v.push({body}); {be}}} __v }})"), prio: 0 });
             }
+            // R18: M.entry(K).or_insert_with(|| { let r = C; C += 1; r })  ->  __entry_or_insert_counter(&mut M, K, &mut C)
+            // side condition: the closure is exactly "take the counter's value, increment the counter"
+            syn::Expr::MethodCall(m)
+                if m.method == "or_insert_with" && self.rw.on("R18") && m.args.len() == 1 && is_method(&m.receiver, "entry").map_or(false, |en| en.args.len() == 1) =>
+            {
+                let en = is_method(&m.receiver, "entry").unwrap();
+                let cl = match &m.args[0] {
+                    syn::Expr::Closure(c) if c.inputs.is_empty() => c,
+                    _ => die("unsupported", &format!("{}: R18 side condition: or_insert_with argument is not a parameterless closure", self.rw.fn_path)),
+                };
+                let body = norm(self.rw.text(&*cl.body));
+                // { let R = C; C += 1; R }
+                let inner = body.trim().trim_start_matches('{').trim_end_matches('}').trim().to_string();
+                let parts: Vec<String> = inner.split(';').map(|p| p.trim().to_string()).filter(|p| !p.is_empty()).collect();
+                let ok = parts.len() == 3 && parts[0].starts_with("let ") && parts[0].contains(" = ");
+                if !ok {
+                    die("unsupported", &format!("{}: R18 side condition: closure body is not `let r = c; c += 1; r`", self.rw.fn_path));
+                }
+                let (r_name, c_name) = {
+                    let rest = parts[0].trim_start_matches("let ").to_string();
+                    let mut it = rest.splitn(2, " = ");
+                    (it.next().unwrap().trim().to_string(), it.next().unwrap().trim().to_string())
+                };
+                if parts[1] != format!("{c_name} += 1") || parts[2] != r_name {
+                    die("unsupported", &format!("{}: R18 side condition: closure body is not `let r = c; c += 1; r`", self.rw.fn_path));
+                }
+                let map = self.render(&en.receiver);
+                let k = self.render(&en.args[0]);
+                self.rw.log.push(format!("R18 .entry(k).or_insert_with(counter closure) -> __entry_or_insert_counter (counter `{c_name}`)"));
+                self.edits.push(Edit { range: rng(e), text: format!("__entry_or_insert_counter(&mut {map}, {k}, &mut {c_name})"), prio: 0 });
+            }
             // R12: M.entry(K).or_default().insert(V)  ->  __entry_or_default_insert(M, K, V)
             // side condition: M is a `&mut` binding (implicit reborrow; rustc rejects anything else)
             syn::Expr::MethodCall(m)
@@ -727,6 +778,137 @@ impl<'ast, 'r, 'a> Visit<'ast> for Collector<'r, 'a> {
 }
 
 impl<'r, 'a> Collector<'r, 'a> {
+    fn local_name_ty(&self, l: &syn::Local) -> Option<(String, Option<String>)> {
+        match &l.pat {
+            syn::Pat::Type(pt) => match &*pt.pat {
+                syn::Pat::Ident(pi) if pi.by_ref.is_none() => Some((pi.ident.to_string(), Some(self.rw.text(&*pt.ty).to_string()))),
+                _ => None,
+            },
+            syn::Pat::Ident(pi) if pi.by_ref.is_none() => Some((pi.ident.to_string(), None)),
+            _ => None,
+        }
+    }
+
+    /// closure spec of a hoisted closure: `@loop KEY` with `@closure_sig` and `@loop_ensures`
+    fn hoisted_closure(&mut self, key: &str, cl: &syn::ExprClosure, rule: &str) -> String {
+        if cl.capture.is_some() || cl.inputs.len() != 1 {
+            die("unsupported", &format!("{}: {rule} side condition violated (move closure / several params)", self.rw.fn_path));
+        }
+        let ckey = format!("{key}c");
+        let sig = match self.rw.loops.iter().find(|l| l.key == ckey).and_then(|l| l.closure_sig.clone()) {
+            Some(s) => s,
+            None => die("malformed-unit", &format!("{}: {rule} needs `@loop {ckey}` with a @closure_sig for the hoisted closure", self.rw.fn_path)),
+        };
+        let (_i, hdr, _bs, _be) = self.rw.loop_parts(&ckey);
+        let body = self.render(&cl.body);
+        format!("{sig}{hdr} {body}")
+    }
+
+    /// R16: `let x[: RoaringBitmap] = RoaringBitmap::from_iter(ITER.map(|p| B));`
+    ///  -> `let mut x: RoaringBitmap = RoaringBitmap::default(); for p in ITER { x.insert(B); }`
+    fn try_r16(&mut self, l: &syn::Local) -> Option<String> {
+        let init = l.init.as_ref()?;
+        if init.diverge.is_some() {
+            return None;
+        }
+        let (name, _ty) = self.local_name_ty(l)?;
+        let call = match &*init.expr {
+            syn::Expr::Call(c) => c,
+            _ => return None,
+        };
+        if norm(self.rw.text(&*call.func)) != "RoaringBitmap::from_iter" || call.args.len() != 1 {
+            return None;
+        }
+        let mp = is_method(&call.args[0], "map")?;
+        if mp.args.len() != 1 {
+            return None;
+        }
+        let cl = match &mp.args[0] {
+            syn::Expr::Closure(c) => c,
+            _ => return None,
+        };
+        if cl.capture.is_some() || cl.inputs.len() != 1 || closure_has_control_flow(&cl.body) {
+            die("unsupported", &format!("{}: R16 side condition violated (move closure / several params / control flow in body)", self.rw.fn_path));
+        }
+        let key = self.rw.next_key("R16");
+        let (iter, hdr, bs, be) = self.rw.loop_parts(&key);
+        let wrap = self.rw.loops.iter().find(|l| l.key == key).and_then(|l| l.wrap.clone());
+        let pat = self.rw.text(&cl.inputs[0]).to_string();
+        let mut recv = self.render(&mp.receiver);
+        if let Some(w) = wrap {
+            // iteration over a bitmap: `B.iter()` -> `W(&B)`
+            if let Some(it) = is_method(&mp.receiver, "iter") {
+                recv = format!("{w}(&({}))", self.render(&it.receiver));
+            } else {
+                recv = format!("{w}(&({recv}))");
+            }
+        }
+        let body = self.render(&cl.body);
+        self.rw.log.push(format!("R16 let {name} = RoaringBitmap::from_iter(..map(..)) -> loop {key}"));
+        Some(format!("let mut {name}: RoaringBitmap = RoaringBitmap::default(); for {pat} in {iter}{recv} {hdr}{{ {bs}{name}.insert({body}); {be}}}"))
+    }
+
+    /// R17: `let x = RoaringBitmap::from_sorted_iter(B.iter().filter(CL)).unwrap();`
+    ///  -> `let __flt = CL; let mut x = RoaringBitmap::default(); for e in __rb_vec(&B) { if __flt(&e) { x.insert(e); } }`
+    /// (a bitmap iterates in ascending order, so from_sorted_iter cannot fail and yields the set)
+    fn try_r17(&mut self, l: &syn::Local) -> Option<String> {
+        let init = l.init.as_ref()?;
+        if init.diverge.is_some() {
+            return None;
+        }
+        let (name, _ty) = self.local_name_ty(l)?;
+        let unw = is_method(&init.expr, "unwrap")?;
+        let call = match &*unw.receiver {
+            syn::Expr::Call(c) => c,
+            _ => return None,
+        };
+        if norm(self.rw.text(&*call.func)) != "RoaringBitmap::from_sorted_iter" || call.args.len() != 1 {
+            return None;
+        }
+        let flt = is_method(&call.args[0], "filter")?;
+        let it = match is_method(&flt.receiver, "iter") {
+            Some(i) => i,
+            None => die("unsupported", &format!("{}: R17 side condition: the filtered iterator is not `BITMAP.iter()`", self.rw.fn_path)),
+        };
+        let cl = match flt.args.get(0) {
+            Some(syn::Expr::Closure(c)) => c,
+            _ => return None,
+        };
+        let key = self.rw.next_key("R17");
+        let (iter, hdr, bs, be) = self.rw.loop_parts(&key);
+        let clos = self.hoisted_closure(&key, cl, "R17");
+        let bm = self.render(&it.receiver);
+        self.rw.log.push(format!("R17 let {name} = RoaringBitmap::from_sorted_iter(B.iter().filter(..)).unwrap() -> loop {key}"));
+        Some(format!("let __flt_{name} = {clos}; let mut {name}: RoaringBitmap = RoaringBitmap::default(); for __e in {iter}__rb_vec(&({bm})) {hdr}{{ {bs}if __flt_{name}(&__e) {{ {name}.insert(__e); }} {be}}}"))
+    }
+
+    /// R3f: `let x: Vec<T> = ITER.filter(CL).cloned().collect();`
+    ///  -> `let __flt = CL; let mut x: Vec<T> = Vec::new(); for e in ITER { if __flt(&e) { x.push(e.clone()); } }`
+    fn try_r3f(&mut self, l: &syn::Local) -> Option<String> {
+        let init = l.init.as_ref()?;
+        if init.diverge.is_some() {
+            return None;
+        }
+        let (name, ty) = self.local_name_ty(l)?;
+        let coll = is_method(&init.expr, "collect")?;
+        let cloned = is_method(&coll.receiver, "cloned")?;
+        let flt = is_method(&cloned.receiver, "filter")?;
+        let cl = match flt.args.get(0) {
+            Some(syn::Expr::Closure(c)) => c,
+            _ => return None,
+        };
+        let vec_ty = ty.unwrap_or_else(|| "Vec<_>".to_string());
+        if !vec_ty.replace(' ', "").starts_with("Vec<") {
+            die("unsupported", &format!("{}: R3f side condition: declared type `{vec_ty}` is not Vec<_>", self.rw.fn_path));
+        }
+        let key = self.rw.next_key("R3f");
+        let (iter, hdr, bs, be) = self.rw.loop_parts(&key);
+        let clos = self.hoisted_closure(&key, cl, "R3f");
+        let recv = self.render(&flt.receiver);
+        self.rw.log.push(format!("R3f let {name} = ..filter(..).cloned().collect() -> loop {key}"));
+        Some(format!("let __flt_{name} = {clos}; let mut {name}: {vec_ty} = Vec::new(); for __e in {iter}{recv} {hdr}{{ {bs}if __flt_{name}(&__e) {{ {name}.push(__e.clone()); }} {be}}}"))
+    }
+
     /// R3: `let x: Vec<T> = ITER.map(|p| B).collect();`  (optionally `.collect::<..>()`)
     ///  -> `let mut x: Vec<T> = Vec::new(); for p in ITER { x.push(B); }`
     /// R3r: `... .collect::<Result<..>>()?;` / `.collect::<Result<_>>()?` with B containing `?` allowed
